@@ -173,6 +173,10 @@ func compareInt(a, b int) int {
 
 // parseNum returns the integer value and true if s is a valid number, otherwise 0 and false
 func parseNum(s string) (int, bool) {
+	// a numeric identifier consists of digits only; "-5" is alphanumeric, not the integer -5
+	if s == "" || s[0] < '0' || s[0] > '9' {
+		return 0, false
+	}
 	if num, err := strconv.Atoi(s); err == nil {
 		return num, true
 	}
